@@ -103,3 +103,93 @@ Example C20_nonvacuous :
                          | _ => false end) (t_subcommands table) = true
   /\ Nat.leb 2 (List.length (t_subcommands table)) = true.
 Proof. vm_compute. repeat split; reflexivity. Qed.
+
+(* ------------------------------------------------------------------ which file is "the configuration file"
+   options.parse(args) as the [jug] command calls it (no explicit options file): the configuration is
+   DISCOVERED - the first existing one of the candidate paths of the source ([rc_candidates],
+   generated), only that one. *)
+
+(* General (every option table, every command line, every list of candidates): once a candidate
+   exists, NOTHING that comes after it - whether further candidates exist, what they contain - has any
+   influence on the outcome: no option value, no error, not sys.argv. *)
+Theorem C20_lower_priority_rc_file_never_matters : forall (T : option_table) (c : cmdline)
+    (higher : list candidate) (x : candidate) (lower lower' : list candidate) (date : string) (keys : list string),
+  (forall y, In y higher -> y = CAbsent) -> x <> CAbsent ->
+  run_discovered T c (higher ++ x :: lower)%list date keys = run_discovered T c (higher ++ x :: lower')%list date keys.
+Proof. exact run_discovered_ignores_lower. Qed.
+Print Assumptions C20_lower_priority_rc_file_never_matters.
+
+(* ... the outcome is that of parsing with exactly the first existing file; with no candidate at all,
+   that of an empty configuration *)
+Theorem C20_discovered_file_is_first_existing : forall (T : option_table) (c : cmdline)
+    (higher : list candidate) (cfg : config) (lower : list candidate) (date : string) (keys : list string),
+  (forall y, In y higher -> y = CAbsent) ->
+  run_discovered T c (higher ++ CFile cfg :: lower)%list date keys = run T c cfg date keys.
+Proof. exact run_discovered_first_file. Qed.
+Print Assumptions C20_discovered_file_is_first_existing.
+
+Theorem C20_no_rc_file_is_empty_configuration : forall (T : option_table) (c : cmdline)
+    (cands : list candidate) (date : string) (keys : list string),
+  (forall y, In y cands -> y = CAbsent) -> run_discovered T c cands date keys = run T c [] date keys.
+Proof. exact run_discovered_nothing. Qed.
+Print Assumptions C20_no_rc_file_is_empty_configuration.
+
+(* The candidate paths of the current source are the documented ones in the documented order. *)
+Theorem C20_generated_rc_candidates :
+  rc_candidates = ["~/.config/jug/jugrc"; "~/.config/jugrc"; "~/.jug/configrc"].
+Proof. exact gen_rc_candidates. Qed.
+Print Assumptions C20_generated_rc_candidates.
+
+(* For the current source, in terms of home directories: two homes that agree on the candidate paths
+   up to and including the first one that exists give every command the same outcome, whatever lies
+   at the lower-priority paths (a stale ~/.jug/configrc next to ~/.config/jug/jugrc is never read). *)
+Theorem C20_lower_priority_rc_file_ignored : forall (c : cmdline) (higher : list string) (p : string)
+    (lower : list string) (h h' : home) (date : string) (keys : list string),
+  rc_candidates = (higher ++ p :: lower)%list ->
+  (forall q, In q higher -> home_at h q = CAbsent) ->
+  home_at h p <> CAbsent ->
+  (forall q, In q (higher ++ [p])%list -> home_at h' q = home_at h q) ->
+  run_home table c rc_candidates h date keys = run_home table c rc_candidates h' date keys.
+Proof. exact gen_lower_rc_file_ignored. Qed.
+Print Assumptions C20_lower_priority_rc_file_ignored.
+
+(* ... and the whole of options.parse(args) in a home directory is the specification (command line ??
+   coerce(default, configuration file) ?? default, jugdir template, sys.argv) applied to the contents of
+   the first existing candidate. *)
+Theorem C20_parse_in_home_is_spec : forall (c : cmdline) (h : home) (date : string) (keys : list string),
+  ~ In "user_args" keys ->
+  run_home table c rc_candidates h date keys
+  = spec_run table c (discovered_config (candidates_in spec_rc_candidates h)) date keys.
+Proof. exact gen_run_home_is_spec. Qed.
+Print Assumptions C20_parse_in_home_is_spec.
+
+(* non-vacuity: a current rc file and a stale legacy one with overlapping and disjoint settings: only
+   the current one speaks (its jugdir and nr-wait-cycles; will_cite / keep-going / jugfile of the stale
+   file are NOT applied; its unconvertible value does not matter); alone, the legacy file is read; an
+   unopenable first candidate means no configuration; the command line still wins *)
+Definition ex_current : config := [("main", "jugdir", "current.%(jugfile)s.store"); ("execute", "nr-wait-cycles", "5")].
+Definition ex_stale : config :=
+  [("main", "jugdir", "old_store"); ("main", "jugfile", "old.py"); ("main", "will-cite", "true");
+   ("execute", "nr-wait-cycles", "99"); ("execute", "keep-going", "true"); ("execute", "wait-cycle-time", "abc")].
+Definition ex_keys : list string := ["jugdir"; "jugfile"; "will_cite"; "execute_nr_wait_cycles"; "execute_keep_going"].
+Definition ex_exec (opts : list (string * string)) : cmdline := {| c_sub := "execute"; c_opts := opts; c_pos := [] |}.
+
+Example C20_discovery_nonvacuous :
+  run_home table (ex_exec []) rc_candidates
+           [("~/.jug/configrc", CFile ex_stale); ("~/.config/jug/jugrc", CFile ex_current)] "2026-09-27" ex_keys
+  = OOk [Some (VStr "current.jugfile.store"); Some (VStr "jugfile.py"); Some (VBool false); Some (VInt 5); Some (VBool false)]
+        ["jugfile.py"]
+  /\ run_home table (ex_exec []) rc_candidates
+           [("~/.jug/configrc", CFile [("main", "jugdir", "old_store"); ("main", "will-cite", "true")])] "2026-09-27" ex_keys
+  = OOk [Some (VStr "old_store"); Some (VStr "jugfile.py"); Some (VBool true); Some (VInt 150); Some (VBool false)]
+        ["jugfile.py"]
+  /\ run_home table (ex_exec []) rc_candidates [("~/.jug/configrc", CFile ex_stale)] "2026-09-27" ex_keys = OCoerceError
+  /\ run_home table (ex_exec []) rc_candidates
+           [("~/.config/jugrc", CUnreadable); ("~/.jug/configrc", CFile ex_stale)] "2026-09-27" ex_keys
+  = OOk [Some (VStr "jugfile.jugdata"); Some (VStr "jugfile.py"); Some (VBool false); Some (VInt 150); Some (VBool false)]
+        ["jugfile.py"]
+  /\ run_home table (ex_exec [("--jugdir", "cli"); ("--nr-wait-cycles", "0")]) rc_candidates
+           [("~/.jug/configrc", CFile ex_stale); ("~/.config/jug/jugrc", CFile ex_current)] "2026-09-27" ex_keys
+  = OOk [Some (VStr "cli"); Some (VStr "jugfile.py"); Some (VBool false); Some (VInt 0); Some (VBool false)]
+        ["jugfile.py"].
+Proof. vm_compute. repeat split; reflexivity. Qed.
